@@ -563,6 +563,60 @@ fn restart(ctx: &mut Ctx, s: &mut Session) -> Step {
             }
         }
     }
+    // C04: every component of the position must influence the hash.  Positions that differ
+    // from this one in exactly one castling right, in the en-passant marker or in the side
+    // to move are built from text, and neither zobrist() nor what `Hash` feeds a hasher may
+    // coincide with this position's (a collision of good 64-bit keys is out of the question)
+    if matches!(ctx.mode, Prop::C04 | Prop::C07) {
+        let trait_hash = |b: &Board| -> u64 {
+            use std::hash::{Hash, Hasher};
+            let mut h = std::collections::hash_map::DefaultHasher::new();
+            b.hash(&mut h);
+            h.finish()
+        };
+        let base = s.board;
+        let (z0, h0) = op(Op::Hash, || (base.zobrist(), trait_hash(&base)));
+        let mut variants: Vec<(Pos1, String)> = Vec::new();
+        for i in 0..4 {
+            if s.model.cr[i] {
+                let mut q = s.model.clone();
+                q.cr[i] = false;
+                variants.push((q, format!("right{i}")));
+            }
+        }
+        if s.model.ep.is_some() {
+            let mut q = s.model.clone();
+            q.ep = None;
+            variants.push((q, "ep".into()));
+        }
+        {
+            let mut q = s.model.clone();
+            q.stm ^= 1;
+            q.ep = None;
+            let mut r = s.model.clone();
+            r.ep = None;
+            // compare like with like: both without ep marker
+            if q.validity().is_ok() && s.model.ep.is_none() {
+                variants.push((q, "side".into()));
+            }
+            let _ = r;
+        }
+        for (q, what) in variants {
+            if q.validity().is_err() {
+                continue;
+            }
+            if let Ok(vb) = op(Op::Parse, || sut::to_board(&q)) {
+                ctx.stats.bump("c04.component-probes");
+                let (z1, h1) = op(Op::Hash, || (vb.zobrist(), trait_hash(&vb)));
+                if z1 == z0 {
+                    return ctx.fail(Prop::C04, "hash.component-ignored", format!("component={};via=zobrist", what.trim_end_matches(char::is_numeric)), format!("{} and {} differ in {what} but have the same zobrist() {z0}", fen, q.fen()));
+                }
+                if h1 == h0 {
+                    return ctx.fail(Prop::C04, "hash.component-ignored", format!("component={};via=Hash", what.trim_end_matches(char::is_numeric)), format!("{} and {} differ in {what} but feed the same value to a Hasher", fen, q.fen()));
+                }
+            }
+        }
+    }
     // path 3: the builder (positions without castling rights only)
     if let Some(r) = op(Op::Build, || sut::to_board_builder(&s.model)) {
         match r {
@@ -730,9 +784,50 @@ fn corrupt_text(ctx: &mut Ctx, text: &str, other: &str) -> (Vec<u8>, String) {
         return (b, "random-bytes".to_string());
     }
     for _ in 0..n {
-        let which = ctx.tape.choose(11);
+        let which = ctx.tape.choose(12);
         let len = b.len() as u32;
         match which {
+            11 => {
+                // flood: whole ranks of one colour's pieces (far more than sixteen a side)
+                let s = String::from_utf8_lossy(&b).to_string();
+                let mut f: Vec<String> = s.split(' ').map(|x| x.to_string()).collect();
+                if !f.is_empty() {
+                    let mut rows: Vec<String> = f[0].split('/').map(|x| x.to_string()).collect();
+                    let white = ctx.tape.choose(2) == 0;
+                    if ctx.tape.choose(2) == 1 && rows.len() == 8 {
+                        // the shape that needs the longest move list: eight pawns about to
+                        // promote plus eight knights or queens of the same colour
+                        let (pawn_row, other_row) = if white { (1usize, 4usize) } else { (6usize, 3usize) };
+                        let p = if white { 'P' } else { 'p' };
+                        let k = *ctx.tape.pick(&['n', 'q', 'n']);
+                        let k = if white { k.to_ascii_uppercase() } else { k };
+                        if !rows[pawn_row].to_ascii_lowercase().contains('k') && !rows[other_row].to_ascii_lowercase().contains('k') {
+                            rows[pawn_row] = std::iter::repeat(p).take(8).collect();
+                            rows[other_row] = std::iter::repeat(k).take(8).collect();
+                            // the promotion rank itself stays as it is; make the flooded side move
+                            if f.len() > 1 {
+                                f[1] = if white { "w".into() } else { "b".into() };
+                            }
+                        }
+                    }
+                    let floods = ctx.tape.range(0, 2);
+                    for _ in 0..floods {
+                        if rows.is_empty() {
+                            break;
+                        }
+                        let r = ctx.tape.choose(rows.len() as u32) as usize;
+                        if rows[r].contains('k') || rows[r].contains('K') {
+                            continue;
+                        }
+                        let k = *ctx.tape.pick(&['n', 'n', 'q', 'r', 'b', 'p']);
+                        let k = if white { k.to_ascii_uppercase() } else { k };
+                        rows[r] = std::iter::repeat(k).take(8).collect();
+                    }
+                    f[0] = rows.join("/");
+                    b = f.join(" ").into_bytes();
+                    ops.push("flood-ranks");
+                }
+            }
             0 if len > 0 => {
                 let i = ctx.tape.choose(len) as usize;
                 let bit = ctx.tape.choose(8);
@@ -1163,6 +1258,38 @@ fn probes(ctx: &mut Ctx, s: &Session, l1: &[Mv]) {
 
 // ---------------------------------------------------------------- main loop
 
+/// see `one_ply`: the property's own monitors at a position whose generated move list
+/// already disagrees with the references
+fn own_monitors_at_disputed_position(ctx: &mut Ctx, st: &mut LoopState) -> Step {
+    let mut l1 = st.s.model.legal_moves();
+    l1.sort();
+    match ctx.claim {
+        Prop::C02 => {
+            // the checked operations must follow the rules, whatever the generator lists
+            let ls = op(Op::Generate, || sut::legals_sorted(&st.s.board));
+            let fen = st.s.model.fen();
+            for &m in ls.iter().filter(|m| !l1.contains(m)).take(8) {
+                for which in 0..3u32 {
+                    if apply_checked(&st.s.board, m, which).is_some() {
+                        return ctx.fail(Prop::C02, "gate.accepted-illegal", format!("offer=generated-but-illegal;op={}", APPLY_NAMES[which as usize]), format!("{} accepted illegal {} in {fen}", APPLY_NAMES[which as usize], m.text()));
+                    }
+                }
+            }
+            for &m in l1.iter().filter(|m| !ls.contains(m)).take(8) {
+                for which in 0..3u32 {
+                    if apply_checked(&st.s.board, m, which).is_none() {
+                        return ctx.fail(Prop::C02, "gate.refused-legal", format!("{};op={}", move_features(&st.s.model, m), APPLY_NAMES[which as usize]), format!("{} refused legal {} in {fen}", APPLY_NAMES[which as usize], m.text()));
+                    }
+                }
+            }
+            Ok(())
+        }
+        Prop::C03 => mon_c03_status(ctx, &st.s, &l1),
+        Prop::C11 | Prop::C12 => clock::at_position(ctx, &st.s, &l1, &st.three_fold),
+        _ => Ok(()),
+    }
+}
+
 enum Flow {
     Continue,
     Break,
@@ -1209,7 +1336,17 @@ fn one_ply(ctx: &mut Ctx, st: &mut LoopState, ply: u32) -> Step<Flow> {
             }
             return Ok(Flow::Continue);
         }
-        let l1 = check_legals(ctx, &st.s)?;
+        let l1 = match check_legals(ctx, &st.s) {
+            Ok(l) => l,
+            Err(Stop::Foreign(v)) => {
+                // the generated move list is wrong (C01's business).  Before the session is cut
+                // short, let the property under check look at this very position with the
+                // reference move list: a generator defect usually breaks it here too
+                own_monitors_at_disputed_position(ctx, st)?;
+                return Err(Stop::Foreign(v));
+            }
+            Err(e) => return Err(e),
+        };
         let key = st.s.model.key();
         {
             let mut h = crate::tape::FNV0;
@@ -1470,7 +1607,7 @@ pub fn run(ctx: &mut Ctx) -> Step {
         prev_legal: Vec::new(),
         last_move: [None, None],
         from_standard: if cfg.gen == 0 { Some(Vec::new()) } else { None },
-        sut_driven: false,
+        sut_driven: ctx.env.lean,
         shadow: None,
         last_kind: None,
         last_gave_check: false,
